@@ -59,6 +59,11 @@ type vxJob struct {
 	Cycles     int        `json:"cycles"`               // control cycles before the final SIGTERM
 	InstantsMs []int      `json:"instantsMs,omitempty"` // idle instants for signal choice points (default: start-up wait, first-second delay, between ticks)
 	FinalAtMs  int        `json:"finalAtMs,omitempty"`  // time of the final SIGTERM (default: after Cycles control cycles)
+	// TempStepTo > 0: the sensor (hwmon/file) jumps from 60000 to this value in the middle of control-cycle window 1, so that the
+	// target keeps changing for the rest of the run; ExpectFinalPwm >= 0 with TempStepTo: the PWM value the fault-free run of
+	// the same job shows just before the final SIGTERM (oracle "keeps regulating").
+	TempStepTo     int `json:"tempStepTo,omitempty"`
+	ExpectFinalPwm int `json:"expectFinalPwm,omitempty"`
 }
 
 func (j vxJob) Describe() string {
@@ -268,6 +273,13 @@ func TestVX_daemonChild(t *testing.T) {
 			os.Exit(143)
 		}
 		firstCycle := vxFirstCycleAt()
+		if job.TempStepTo > 0 && w.tempPath != "" {
+			go func() {
+				time.Sleep(firstCycle + vxTick/2 + 31*time.Microsecond)
+				os.WriteFile(w.tempPath, []byte(strconv.Itoa(job.TempStepTo)), 0644)
+				vxAppend(events, fmt.Sprintf("%s sensor now reads %d", stamp(), job.TempStepTo))
+			}()
+		}
 		// fault windows
 		active := map[string]string{} // component -> kind
 		pathRole := func(path, kind string) string {
